@@ -4240,7 +4240,19 @@ impl<'a> Parser<'a> {
             // typeof
             TokenKind::Typeof => {
                 self.advance();
-                let id = self.parse_identifier()?;
+                // Entity name with optional type arguments: typeof x, typeof a.b.c, typeof f<T>
+                let id = if self.check(&TokenKind::This) {
+                    self.parse_identifier_name()?
+                } else {
+                    self.parse_identifier()?
+                };
+                while self.match_token(&TokenKind::Dot) {
+                    self.chain_step()?;
+                    self.parse_identifier_name()?;
+                }
+                if !self.lexer.had_newline_before() {
+                    self.parse_optional_type_arguments()?;
+                }
                 Ok(TypeAnnotation::Typeof(TypeofType {
                     expression: id,
                     span: self.span_from(start),
